@@ -7,6 +7,10 @@
    with `& 2`, `& 4`, `& 2048` ...: thousands of enumerated paths instead of one symbolic branch.
    A concrete non-negative mask is decomposed bitwise with // and %, exact for all Python ints.
 3. `sym | mask` likewise: a | m == a + m - (a & m) for a concrete non-negative mask.
+4. `suspected_proxy_intolerance_exception` makes the engine silently SKIP every path that ends in a TypeError whose text contains
+   "expected string or bytes-like object" or "__hash__ method should return an integer" - also when no symbolic value is involved
+   and the TypeError is a real defect of the code under test (found with seeded change C02_f: `re.match` on an int default).
+   The filter is narrowed to messages that actually name a symbolic proxy type.
 All patches carry self-tests in harness/selftest.py which must be CONFIRMED.
 """
 from crosshair import simplestructs as _ss
@@ -71,6 +75,21 @@ def _ror(self, other):
     return _orig_ror(self, other)
 
 
+def _narrow_filter():
+    from crosshair import core as _core
+    orig = _core.suspected_proxy_intolerance_exception
+
+    def narrowed(exc_value):
+        return bool(orig(exc_value)) and "Symbolic" in str(exc_value)
+
+    _core.suspected_proxy_intolerance_exception = narrowed
+    try:
+        from crosshair import behavior_compare as _bc
+        _bc.suspected_proxy_intolerance_exception = narrowed
+    except Exception:  # noqa - not needed for the checks
+        pass
+
+
 _applied = False
 
 
@@ -83,4 +102,5 @@ def apply():
     _bl.SymbolicInt.__rand__ = _rand
     _bl.SymbolicInt.__or__ = _or
     _bl.SymbolicInt.__ror__ = _ror
+    _narrow_filter()
     _applied = True
